@@ -1,6 +1,6 @@
 """C07 — acceleration shortcuts never change an answer (structural necessary conditions)."""
 from .. import facts, run
-from ..rules import dep, footprint
+from ..rules import dep, footprint, pure
 
 
 def main(tier):
@@ -15,6 +15,9 @@ def main(tier):
     footprint.alias_wrappers(P, rep)
     rep.assumptions.append("whether the numeric size of the spherical buffer is large enough near the poles, and the kd-tree pruning "
                            "arithmetic, are NOT decided (DESIGN.md §4 C07)")
+    # the answer does not depend on what was queried before (no cache that outlives a query: a necessary condition for a
+    # statement about 'all worlds and all points', which includes a second world in the same process)
+    pure.run(P, rep, pure.query_roots(P))
     rep.explanation = ("Dependence sets of every culling bound (depth cut-off, bounding box) against what the exact extent depends on, "
                        "coverage of the max-accumulators, pairing of constant pre-test bounds with their depth surfaces, full-scan "
                        "fallback before Surface::local_value throws, and who-may-call of the alias-unaware implementations.")
